@@ -582,10 +582,12 @@ where
         let mut keys: Vec<u64> = indices.iter().map(|(k, _)| *k).collect();
         let mut sorter = RadixSort::with_config(self.config.clone());
 
-        // Create a mapping from old key to sorted position
-        let mut key_positions = vec![0usize; keys.len()];
-        for (new_pos, &(_, old_pos)) in indices.iter().enumerate() {
-            key_positions[old_pos] = new_pos;
+        // Original positions of every key, in input order (equal keys are handed out one after
+        // the other, so every pair keeps its own value and the sort is stable)
+        let mut positions: std::collections::HashMap<u64, std::collections::VecDeque<usize>> =
+            std::collections::HashMap::new();
+        for &(key, old_pos) in indices.iter() {
+            positions.entry(key).or_default().push_back(old_pos);
         }
 
         sorter.sort_u64(&mut keys)?;
@@ -594,10 +596,9 @@ where
         let original_data: Vec<(K, V)> = data.iter().cloned().collect();
 
         for (new_pos, &key) in keys.iter().enumerate() {
-            // Find original position of this key
-            // SAFETY: Every key in sorted keys array came from indices, so position() always finds it
-            let old_pos = indices.iter().position(|(k, _)| *k == key).unwrap();
-            data[new_pos] = original_data[indices[old_pos].1].clone();
+            // SAFETY: every sorted key came from indices, once per original position
+            let old_pos = positions.get_mut(&key).and_then(|q| q.pop_front()).unwrap();
+            data[new_pos] = original_data[old_pos].clone();
         }
 
         Ok(())
